@@ -35,7 +35,7 @@ CLAUSES = {
     "Act_C10_GrantedImpliesMargin": "C10", "Inv_C10_NoLendingNoLoans": "C10",
     "Act_C11_LoanClosure": "C11", "Step_OutInt": "C11", "Step_AutoRepay": "C11",
 }
-DRIFT_CLAUSES = {"Step_Structure", "Step_Outcome", "Step_ErrClass", "Step_Balances", "Step_Holds", "Step_Orders",
+DRIFT_CLAUSES = {"Step_BidAsk", "Step_Structure", "Step_Outcome", "Step_ErrClass", "Step_Balances", "Step_Holds", "Step_Orders",
                  "Step_Loans", "End_Complete", "End_EventsMatchSpec"}
 
 # invariants / action properties of Exchange.tla per property (MC leg)
@@ -62,7 +62,7 @@ def base_cfg(**over) -> dict:
     cfg = {"syms": ["BTC", "USD"], "scale": {"BTC": 1, "USD": 1}, "pairs": [{"b": "BTC", "q": "USD"}], "pm": 1,
            "init": {"BTC": 1, "USD": 4}, "feeMode": "none", "feeN": 0, "feeD": 1, "minFeeN": 0, "minFeeD": 1,
            "liqMode": "inf", "vlN": 1, "vlD": 4, "vs": 1, "impact": False, "lendMode": "none", "quoteSym": "USD",
-           "reqD": 1, "cond": None, "reindexEvery": 50}
+           "reqD": 1, "cond": None, "reindexEvery": 50, "spreadN": 1, "spreadD": 2}
     cfg.update(over)
     if cfg["cond"] is None:
         cfg["cond"] = {s: no_cond() for s in cfg["syms"]}
@@ -254,7 +254,7 @@ def slim(tr: dict, tid: int) -> dict:
             break
         steps.append({"kind": s["kind"], "arg": s["arg"], "ok": s["ok"], "err": s["err"],
                       "openList": s.get("openList", []), "perPairOk": s.get("perPairOk", True),
-                      "obs": {"clock": o["clock"], "bal": o["bal"], "hold": o["hold"], "bor": o["bor"],
+                      "obs": {"clock": o["clock"], "bal": o["bal"], "hold": o["hold"], "bor": o["bor"], "bidask": o["bidask"],
                               "orders": o["orders"], "loans": o["loans"], "totalOk": o["totalOk"],
                               "listingOk": o["listingOk"], "offgrid": o["offgrid"][:3]}})
     if "truncated_at" in tr:
